@@ -30,7 +30,7 @@ TEXT = {
     'C06': ('reference-model monitor: O(T^2) time-origin MSD, Cartesian distances and tracer diffusivity from harness ground truth',
             'MSD of every atom and lag, distances from the start and tracer diffusivity (dimensions 1-3) of the real functions are compared with the definition evaluated on the unwrapped ground-truth walk, in all lattice classes with many face crossings. Sampled.'),
     'C07': ('metamorphic monitor: full pipeline run in 5 representations (rotation, voxel translation, atom permutation, site permutation) and compared up to relabelling; K1 classifier',
-            'States, events, jumps, matrices, diffusivities, occupancies, collective counts, RDFs, metrics, density and free-energy grids and path costs of two real runs on the same physical system must agree up to the relabelling. Sampled (about 100 / 2500 systems x 4 transformations).'),
+            'States, events, jumps, matrices, diffusivities, occupancies, collective counts, RDFs, metrics, density and free-energy grids and path costs of two real runs on the same physical system must agree up to the relabelling. Sampled (about 200 / 3000 systems x 4 transformations).'),
     'C11': ('reference-model monitor: brute-force pair histograms (image enumeration) per species pair and per (state, symbol) with loop fill-model of the states',
             'Every bin of both public RDF functions is compared with explicit pair loops; the per-state partition is decided by re-deriving the state of every (frame, atom) from the reported site states. Sampled over multi-label systems.'),
     'C12': ('reference-model monitor: O(n^2) pair enumeration over pipeline jumps and injected arbitrary jump tables (long-transit, simultaneous, same-atom), windows and cut-offs',
